@@ -29,6 +29,7 @@ def handlers : List (String × Handler) := [
   ("aggregate", C17.handleAggregate),
   ("rsequal", C17.handleRsEqual),
   ("poll", C17.handlePoll),
+  ("pollcache", C17.handlePollCache),
   ("collector", C17.handleCollector),
   ("podctl", C17.handlePodctl),
   ("readstatus", C17.handleReadStatus),
